@@ -200,6 +200,8 @@ def gen_nesting(rng):
 
 SEM_NAMES = ["A", "B", "Foo", "X.Y", "N"]
 SEM_SUFFIX = ["", "%", "&", "!", "#", "$"]
+BUILTIN_BASES = ["Chr", "Str", "String", "Len", "Mid", "Val", "Left", "Right", "Instr", "Space", "Err", "Eof", "Environ", "Inkey", "Ucase", "Lcase", "Ltrim", "Rtrim",
+                 "Lbound", "Ubound", "Peek", "Cvd", "Mkd", "Varptr", "Varseg", "Beep", "Cls", "Color", "Locate", "Width", "Kill", "Name", "Close", "Field", "Lset", "Poke"]
 
 
 def gen_const_chain(rng):
@@ -230,6 +232,9 @@ def gen_const_chain(rng):
 def gen_semantic_soup(rng):
     """Small programs that reuse one name in many roles (aimed at the linter's internal assumptions)."""
     n = rng.choice(SEM_NAMES)
+    if rng.random() < 0.3:
+        # the bare name of a built-in function or sub, used as an ordinary name with any suffix
+        n = rng.choice(BUILTIN_BASES)
     stmts = []
     forms = [
         lambda: "CONST %s%s = %s" % (n, rng.choice(SEM_SUFFIX), rng.choice(["1", '"x"', "2.5", n, "1 + " + n])),
